@@ -481,7 +481,7 @@ pub fn generate(rng: &mut Rng, thorough: bool) -> Case {
                         dst,
                         name: rng.below(DB_NAMES.len() as u64) as u8,
                         // spelling (case % 4) and lookup path (case / 4)
-                        case: rng.below(24) as u8,
+                        case: rng.below(44) as u8,
                     }
                 }
                 25 => Op::DbReset,
